@@ -93,6 +93,9 @@ ALLOWED_SUBST = {
                               "into_individuals_m(component.initialize(problem, &mut state.random_mut()))",
                               "`x.into_individuals()` (blanket trait over IntoIterator) -> mirrored `into_individuals_m(x)` with the contract "
                               "of the real helper (C05 Kani unit)"),
+    "sort_unstable_by_key_m_self0": (r"self\.0\.sort_unstable_by_key\(", r"sort_unstable_by_key_m(&mut self.0, ",
+                                     "`self.0.sort_unstable_by_key(f)` -> mirrored `sort_unstable_by_key_m(&mut self.0, f)` (assumed std meaning: a "
+                                     "permutation, non-decreasing in the key; the key closure is unchanged)"),
     "phantom_fn": (r"PhantomData<fn\(\) -> (\w+)>", r"PhantomData<\1>",
                    "`PhantomData<fn() -> P>` -> `PhantomData<P>` (variance marker only; Verus has no fn-pointer types)"),
     "temp_guard_rotate": (r"(?m)^(\s*)state\.populations_mut\(\)\.rotate\(self\.n\);", r"\1let mut verif_tmp = state.populations_mut(); verif_tmp.rotate(self.n);",
